@@ -121,7 +121,7 @@ def jobs(tier):
 LEVEL = 'proof'
 TRUSTED = ['tools/cxx2c.py lowering']
 ASSUMPTIONS = [
-    'build_exec (build.cc): only the cases IFELSE ALT SCOPE CAPTURE CLOSE_STAR CLOSE_PLUS OR CAT READ BIND BLOCK FORMAT of its switch are lowered (cxx2c keep_cases; the other cases are dropped and reaching one is a failed obligation); the recursive call is an ASSUMED contract with a ghost call log (records tree, layout, scope, upstream; never shrinks the layout -- re-established for the lowered cases), operator constructors that take a layout reserve an arbitrary non-empty range at its end (contract of layout::reserve, C13), layout::add_union by its C13 contract (props/bx/bx_model.h)',
+    'build_exec (build.cc): only the cases IFELSE ALT SCOPE CAPTURE CLOSE_STAR CLOSE_PLUS OR CAT READ BIND BLOCK FORMAT SUBX_EVAL ASSERT of its switch are lowered (cxx2c keep_cases; the other cases are dropped and reaching one is a failed obligation); the recursive call is an ASSUMED contract with a ghost call log (records tree, layout, scope, upstream; never shrinks the layout -- re-established for the lowered cases), operator constructors that take a layout reserve an arbitrary non-empty range at its end (contract of layout::reserve, C13), layout::add_union by its C13 contract (props/bx/bx_model.h)',
     'identifiers are atoms (equal atoms <=> equal strings); std::map<std::string,T> is a total table over 4 atoms (props/c03/bind_model*.h); the functions under proof touch only the slot of their argument and the obligations are stated for an arbitrary probe name',
     'throw std::runtime_error -> error flag, message construction dropped; assert() failure -> error flag',
     'operators: stacks are arrays of value identities of depth <= 7, unique_ptr = plain pointer/int, value::clone() = identity, scon::get<state>(loc) = one state object per location, value_closure construction records the captured environment (props/c03/opb_model*.h)',
